@@ -22,6 +22,7 @@ import time
 HERE = os.path.dirname(os.path.abspath(__file__))
 sys.path.insert(0, HERE)
 
+import common  # noqa: E402
 from common import LEAN, REPO, VERIF, Timer, repo_digest, seed  # noqa: E402
 
 TRUSTED = [
@@ -225,6 +226,7 @@ def run_check(pid, tier):
 
     # correspondence + oracle
     stats = {"evaluations": 0, "distinct": set(), "samples": [], "distribution": {}, "outcomes": {}}
+    common.ORACLE_NOTES.clear()
     disagreements, oracle_fail_new, known_hits = [], [], {}
     findings = [f for f in load_findings() if f["property"] == pid]
     if driver_ok:
@@ -258,10 +260,12 @@ def run_check(pid, tier):
                 why = orc(c, i) if orc else None
                 if why:
                     klass = cls(c, i, why)
-                    listed = next((f for f in findings if f["status"] == "known" and f["class"] == klass), None)
-                    if listed and m == i:
-                        known_hits.setdefault(listed["id"], 0)
-                        known_hits[listed["id"]] += 1
+                    # a class may name several known differences at once (`a+b`): all must be listed
+                    parts = klass.split("+") if klass else [None]
+                    listed = [next((f for f in findings if f["status"] == "known" and f["class"] == p), None) for p in parts]
+                    if all(listed) and m == i:
+                        for l_ in listed:
+                            known_hits[l_["id"]] = known_hits.get(l_["id"], 0) + 1
                     else:
                         oracle_fail_new.append({"request": c["req"], "kind": c["kind"], "impl": i[:300],
                                                 "model": m[:300], "why": why, "class": klass,
@@ -325,6 +329,7 @@ def run_check(pid, tier):
             "samples": stats["samples"] or [{"note": "no correspondence case was run"}],
             "input_distribution": stats["distribution"],
             "impl_outcomes": stats["outcomes"],
+            "oracle_verdicts": dict(common.ORACLE_NOTES),
             "correspondence_disagreements": len(disagreements),
             "known_findings_hit": known_hits,
             "known_findings_reconfirmed": known_lines,
